@@ -45,6 +45,10 @@ def _passes():
     return opt._OPTIMIZER_PASSES
 
 
+class EngineGap(Exception):
+    pass
+
+
 def _run_reference(model, feeds):
     from onnx.reference import ReferenceEvaluator
 
@@ -63,14 +67,25 @@ def _run_any(model, feeds, engine=None):
     except Exception as e:
         msg = str(e)
         if "NOT_IMPLEMENTED" in msg or "Could not find an implementation" in msg or "is under development" in msg:
-            from onnx.reference import ReferenceEvaluator
-
-            names = {i.name for i in model.graph.input}
-            ref = ReferenceEvaluator(model)
-            return ref.run(None, {k: v for k, v in feeds.items() if k in names}), "reference"
+            try:
+                return _run_reference(model, feeds)
+            except Exception as e2:
+                # neither engine of this image can execute the model (ORT lacks the kernel, onnx.reference stumbles e.g. over a
+                # model-local function called Cast): nothing can be concluded about it
+                raise EngineGap(f"ORT: {msg[:120]} | reference: {type(e2).__name__}: {str(e2)[:120]}")
         raise
     decl = {i.name for i in sess.get_inputs()}
-    return sess.run(None, {k: v for k, v in feeds.items() if k in decl}), "ort"
+    try:
+        return sess.run(None, {k: v for k, v in feeds.items() if k in decl}), "ort"
+    except Exception as e:
+        # ORT loads the model but fails while running it. ONNX semantics are the specification's, not one runtime's: if the
+        # reference evaluator executes the same (checker-clean) model, the failure is ORT's (seen: "Missing Input: v13" for the
+        # output of a CastLike - a function op ORT inlines and renames - captured by an If branch)
+        try:
+            out = _run_reference(model, feeds)
+        except Exception:
+            raise e
+        return out[0], "reference(ort_run_failed)"
 
 
 def _compare(ref, got):
@@ -129,6 +144,7 @@ def differential(model, feeds, function_bodies=True):
     def _baseline(engine):
         # values are compared between runs of the *same* engine: ORT's and onnx.reference's Sigmoid differ by a few 1e-6
         # relative, which a later Div amplifies past any fixed tolerance (Swish has no ORT kernel at opset 24/25)
+        engine = "reference" if engine.startswith("reference") else engine
         if engine not in baselines:
             try:
                 baselines[engine] = _run_any(model, feeds, engine=engine)[0]
@@ -166,9 +182,14 @@ def differential(model, feeds, function_bodies=True):
             return res
         try:
             got, eng_got = _run_any(cur, feeds)
+        except EngineGap as e:
+            res["inconclusive"] = f"{p.name}: {e}"
+            return res
         except Exception as e:
             res["violation"] = {"pass": p.name, "kind": "unloadable_after_pass", "detail": f"{type(e).__name__}: {str(e)[:300]}"}
             return res
+        if eng_got != "ort":
+            res.setdefault("engine_notes", []).append(eng_got)
         diff = _compare(_baseline(eng_got), got)
         if diff:
             res["violation"] = {"pass": p.name, "kind": "output_changed", "detail": diff}
@@ -201,6 +222,9 @@ def differential(model, feeds, function_bodies=True):
             try:
                 onnx.checker.check_model(cur, full_check=True)
                 got, eng_got = _run_any(cur, feeds)
+            except EngineGap as e:
+                res["inconclusive"] = f"fn:{p.name}: {e}"
+                return res
             except Exception as e:
                 res["violation"] = {"pass": p.name, "stage": "function", "kind": "invalid_after_pass", "detail": f"{type(e).__name__}: {str(e)[:300]}"}
                 return res
@@ -299,6 +323,11 @@ def _work_graphs(sh, acc):
             if v and v != "none":
                 acc.tally("flags", f"{k}={v}")
         acc.tally("engine", res["engine"])
+        for n_ in res.get("engine_notes", []):
+            acc.tally("engine_notes", n_)
+        if res.get("inconclusive"):
+            acc.inconclusive += 1
+            acc.tally("inconclusive_reasons", res["inconclusive"][:100])
         if fired and len(acc.samples) < 3:
             acc.samples.append({"nodes": [[nd["op"], nd["i"], nd["o"]] for nd in spec["nodes"]][:14], "outputs": spec["outputs"],
                                 "inputs": spec["inputs"], "fired": fired})
